@@ -202,6 +202,8 @@ func registerIntrinsics(pkg string) {
 			return call(fr.i, fr, token.NoPos, a[0], nil)
 		})
 		reg("vSymbolic", func(fr *frame, a []value) value { return true })
+		reg("vThreads2", extThreads2)
+		reg("vClock", extClock)
 		reg("vMaxDraws", func(fr *frame, a []value) value {
 			fr.i.px.maxDraws = a[0].(int)
 			return nil
